@@ -15,6 +15,7 @@ import SamVerif.Drive.C06
 import SamVerif.Drive.C05
 import SamVerif.Drive.C13
 import SamVerif.Drive.C11
+import SamVerif.Drive.C08
 open SamVerif.Drive
 
 def dispatch (line : String) : String :=
@@ -32,6 +33,7 @@ def dispatch (line : String) : String :=
     else if k.startsWith "c05." then C05.handle k args impl
     else if k.startsWith "c13." then C13.handle k args impl
     else if k.startsWith "c11." then C11.handle k args impl
+    else if k.startsWith "c08." then C08.handle k args impl
     else "bad-op"
   | _ => "bad-op"
 
